@@ -25,6 +25,15 @@ pub struct Profile {
     /// how the ConnectData::connectPDU length is written: 0 = the accurate length; 1 = the constant 0x2A that Windows and
     /// FreeRDP servers write whatever follows (MS-RDPBCGR 4.1.4: "This length MUST be ignored by the client")
     pub connect_pdu_len_style: u8,
+    /// when set, the server network data block announces this channelCount and carries these bytes as its id array,
+    /// whatever their number (every enclosing length stays consistent)
+    pub net_raw: Option<(u16, Vec<u8>)>,
+    /// the dataPriority / segmentation octet of the server's send-data-indications: priority (top 0x00, high 0x40,
+    /// medium 0x80, low 0xC0) | begin and end of an unsegmented message (0x30); Windows writes 0x70
+    pub sdi_flags: u8,
+    /// streamId of the share data headers the server writes (1 low, 2 medium, 4 high; 0 STREAM_UNDEFINED is what some
+    /// servers put into their synchronize PDU, MS-RDPBCGR 2.2.8.1.1.1.2)
+    pub stream_id: u8,
     pub cc_flags: u8,
     pub user_id: u16,
     pub io_channel: u16,
@@ -110,6 +119,9 @@ impl Default for Profile {
         Profile {
             selected_protocol: 0,
             connect_pdu_len_style: 0,
+            net_raw: None,
+            sdi_flags: 0x70,
+            stream_id: 1,
             cc_flags: 0,
             user_id: 1007,
             io_channel: 1003,
@@ -193,6 +205,10 @@ pub fn sc_security(p: &Profile) -> B {
 
 pub fn sc_net(p: &Profile) -> B {
     let mut b = B::new();
+    if let Some((count, raw)) = &p.net_raw {
+        b.u16le("MCSChannelId", p.io_channel).u16le("channelCount", *count).bytes("channelIdArray", raw);
+        return b;
+    }
     b.u16le("MCSChannelId", p.io_channel).u16le("channelCount", p.net_channels.len() as u16);
     for (i, c) in p.net_channels.iter().enumerate() {
         b.u16le(&format!("channelId{}", i), *c);
@@ -292,8 +308,12 @@ pub fn channel_join_confirm(result: u8, user_id: u16, requested: u16, with_chann
 }
 
 pub fn send_data_indication(initiator: u16, channel: u16, data: &B) -> B {
+    send_data_indication_with(initiator, channel, data, 0x70)
+}
+
+pub fn send_data_indication_with(initiator: u16, channel: u16, data: &B, flags: u8) -> B {
     let mut b = B::new();
-    b.u8("sdi.header", 0x68).u16be("sdi.initiator", initiator.wrapping_sub(1001)).u16be("sdi.channelId", channel).u8("sdi.priority", 0x70);
+    b.u8("sdi.header", 0x68).u16be("sdi.initiator", initiator.wrapping_sub(1001)).u16be("sdi.channelId", channel).u8("sdi.priority", flags);
     b.per_len("sdi.length", data.len());
     b.nest("d", data);
     b
@@ -372,7 +392,7 @@ pub fn data_pdu(p: &Profile, share_id: u32, type2: u8, payload: &B) -> B {
     let mut body = B::new();
     body.u32le("sd.shareId", share_id)
         .u8("sd.pad1", 0)
-        .u8("sd.streamId", 1)
+        .u8("sd.streamId", p.stream_id)
         .u16le("sd.uncompressedLength", (payload.len() + 18) as u16)
         .u8("sd.pduType2", type2)
         .u8("sd.compressedType", 0)
@@ -413,7 +433,7 @@ pub fn other_data_pdu(p: &Profile, share_id: u32, type2: u8, body: &[u8]) -> B {
 
 /// wrap a share-level PDU for the wire: MCS send-data-indication on the I/O channel, X.224, TPKT
 pub fn slow_path_frame(p: &Profile, pdu: &B) -> B {
-    tpkt(&x224_data(&send_data_indication(p.server_channel, p.io_channel, pdu)))
+    tpkt(&x224_data(&send_data_indication_with(p.server_channel, p.io_channel, pdu, p.sdi_flags)))
 }
 
 // ------------------------------------------------------------------------------------------ fast-path output
